@@ -1,5 +1,6 @@
-From RsdnsModel Require Import Base RecordSet Client.
-From RsdnsModel.Proofs Require Import ClientProofs.
+From RsdnsModel Require Import Base RecordSet Client Timed.
+From RsdnsModel.Spec Require Import Retry.
+From RsdnsModel.Proofs Require Import ClientProofs TimedProofs.
 From RsdnsModel.Properties Require Import C16.
 Open Scope N_scope.
 Check (C16_leftovers_ignored : forall std id qname qtype qclass pre post junk,
@@ -19,4 +20,14 @@ Check (C16_buffer_history_safe : forall std bs, 0 < bs -> forall h st, tq_inv bs
 Check (C16_buffer_history_example : tq_inv 65535 (65535, 0) /\
   tq_run false 65535 (65535, 0) [(0, TqDone 120); (7, TqDropped); (0, TqDone 300); (3, TqFailed); (0, TqDropped); (1, TqDone 65535)] =
   [TqRan 65535; TqRan 65535; TqRan 65535; TqRan 65535; TqRan 65535; TqRan 65535]).
-Print Assumptions C16_leftovers_ignored. Print Assumptions C16_leftover_accepted_only_if_matching. Print Assumptions C16_typed_query_ignores_history. Print Assumptions C16_buffer_history_safe. Print Assumptions C16_buffer_history_example.
+Check (C16_history_refines_spec : forall std smol lifetime qt, qt_pos qt -> 0 < lifetime ->
+  forall qs queue lo, sorted_from lo queue ->
+  Forall2 (fun q o => exists queue_k pre, queue = pre ++ queue_k /\
+             o = outcome_of (spec_udp (good_of std q) (exchange_fuel lifetime) (tq_start q) lifetime qt
+                               (filter (answers (good_of std q)) queue_k)))
+          qs (udp_history std smol lifetime qt zero_jit qs queue)).
+Check (C16_history_example : (forall std, udp_history std false 500 (Some 300) zero_jit ex_qs ex_queue =
+     [ ([1000; 1300], Err Timeout, 1500);
+       ([2000], Ok (ex_resp x12 x35 "b", 33152), 2100);
+       ([3000; 3300], Err Timeout, 3500) ]) /\ sorted_from 0 ex_queue).
+Print Assumptions C16_leftovers_ignored. Print Assumptions C16_leftover_accepted_only_if_matching. Print Assumptions C16_typed_query_ignores_history. Print Assumptions C16_buffer_history_safe. Print Assumptions C16_buffer_history_example. Print Assumptions C16_history_refines_spec. Print Assumptions C16_history_example.
